@@ -18,6 +18,14 @@ CLAIMED = {
              ref="DESIGN.md §4.4, §5 C03", technique="Lean 4 proof + differential correspondence on boundary count vectors"),
  'C04': dict(text="Theorems (every state): an ordered call always consumes one global slot number; it is accepted iff the slot is owned by a pattern of the called method whose matcher accepts, and is then answered by that pattern at its count; otherwise CallOrderNotMatched / InputsNotMatched and nothing counted; unordered and unmentioned calls leave the ordered index and all other methods' patterns untouched. Tie: prefix-tree enumeration (every accepted prefix x every next call).",
              ref="DESIGN.md §4.3, §5 C04", technique="Lean 4 proof + differential correspondence over prefix trees of ordered histories"),
+ 'C07': dict(text="Theorems: total resolution of calls without an applicable pattern (unmentioned: default body, else real implementation if partial / partial-by-default, else NoMockImplementation; mentioned-unmatched unordered: NoMatchingCallPatterns or real implementation), state untouched in all those cases; every value handed back by eval was configured by a returns responder of the called method (never fabricated); continuation arms of the generated body. Tie: the full decision table {strict,partial} x method attributes x {unmentioned, unmatched, matched} x {unordered, ordered} x arguments x positions.",
+             ref="DESIGN.md §4.3, §5 C07", technique="Lean 4 proof (case analysis of evalCall/callMethod) + exhaustive decision-table correspondence"),
+ 'C08': dict(text="Theorems: eval appends exactly its own error to the shared log; by mutual induction over the fuel of callMethod/runProg (arbitrary user-code interaction trees): the log after a method call = log before ++ [the mock error it panicked with], nothing for returns and user-code panics; teardown of the original forwards a non-empty log verbatim. Tie: histories with every error kind on originals/clones/other threads, all panics swallowed; independent oracle on the real trace: final verification lists every induced error.",
+             ref="DESIGN.md §4.4, §5 C08", technique="Lean 4 proof (mutual induction over interaction trees) + differential correspondence + trace oracle"),
+ 'C09': dict(text="Theorems about the lifecycle machine (every world): clones never verify nor panic; torn-down instances never verify again; no_verify_in_drop disables; live clone => 'clones alive' panic; foreign thread => panic; verify()/no_verify on a clone panic; report() = exit code of the verify verdict. Tie: exhaustive DFS over lifecycle event sequences (clone, drop on either thread, calls, provided-method calls creating helper clones, answers parking a clone via make_ref, verify, report, no_verify) plus random.",
+             ref="DESIGN.md §4.4, §5 C09", technique="Lean 4 proof over lifecycle state machine + exhaustive event-sequence correspondence"),
+ 'C18': dict(text="Theorems: a call routed through any live instance of the same mock has the same outcome and leaves the same shared states; a call on one mock leaves every other mock untouched; lifecycle events never touch shared state; a method's answer reads only its own table entry (distinct TypeIds never mix). Tie: relational families (clauses re-interleaved across methods, calls re-routed over clones, a second independent mock interleaved) compared real-vs-real and real-vs-model. Partial: invariance of assembly under clause permutation is validated by the tie, not yet proved.",
+             ref="DESIGN.md §4.2, §5 C18", technique="Lean 4 proof + relational (metamorphic) correspondence on the real crate"),
 }
 
 checks = []
